@@ -136,8 +136,8 @@ class BalMonitor(Monitor):
                 lo = self.code_names.get(f'loop_{n}', -1)
                 hi = self.code_names.get(f'break_{n}', 1 << 60)
                 src = jumped_from if jumped_from is not None else pc - 1
-                if not (lo <= src < hi):
-                    continue      # co-located label reached from outside the loop
+                if not (lo <= src < hi) or jumped_from in self.call_sites:
+                    continue      # co-located label reached from outside the loop, or by a call
                 self.stats[k] += 1
                 r = self._get(fr[3], ('l', n))
                 if r is None:
